@@ -51,6 +51,8 @@ func checkC01(w *World, tier string) *Report {
 		"S-noaspect: with no Aspect bound the Aspect runtime returns Err == nil and Gas == the gas argument (checked against aspect-core source in the thorough tier)",
 		"StateDB, params, uint256, crypto are the same module versions in fork and reference build lists",
 		"host preconditions: BlockContext.BlockNumber non-nil; djpm.AspectInstance() initialised")
+	// the transfer replacement rests on the wrapper calling the host transfer exactly once, unconditionally, with the same arguments
+	addR131(w, r, "R13.1")
 	return r
 }
 
@@ -125,5 +127,12 @@ func checkC18(w *World, tier string) *Report {
 		r.Extra["classification_"+pkgShort(pair)] = map[string]int{"clone": len(cl.names(ClsClone)), "delta": len(cl.names(ClsDelta)), "new": len(cl.names(ClsNew))}
 	}
 	r.Assumptions = append(r.Assumptions, "JS tracers are not part of the fork", "callstack[0] holds zero values in reference-visible fields before CaptureStart when no Aspect event preceded it")
+	// the cost reported with every CaptureState/CaptureFault event is computed by the gas functions
+	meter := map[string]bool{"gas_table.go": true, "gas.go": true, "operations_acl.go": true, "memory_table.go": true, "common.go": true}
+	s.cloneRule(r, "R18.1g", pkVM, func(name string, pr *PairResult) bool {
+		f := w.Fset.Position(pr.Fork.Pos()).Filename
+		return meter[f[strings.LastIndex(f, "/")+1:]]
+	})
+	r.need("R18.1g", 40)
 	return r
 }
